@@ -74,16 +74,36 @@ func VerifC14_MountUpdate() {
 		data.TestSetSnapshotID(nil, sn, restic.ID{i})
 		return sn
 	}
-	// two consecutive updates: the second listing may contain a new snapshot
+	// two consecutive updates: before the second one, other processes may have removed the first
+	// snapshot (forget) and added up to two new ones (backup), in any combination
 	sets[0] = data.Snapshots{mk(1)}
-	sets[1] = data.Snapshots{mk(1)}
-	if verifrt.Bool("newSnapshot") {
-		sets[1] = append(sets[1], mk(2))
+	var ids0, ids1 []byte
+	first := restic.ID{1}
+	ids0 = append(ids0, first[:]...)
+	for i := byte(1); i <= 3; i++ {
+		present := verifrt.Bool("inSecondListing")
+		if present {
+			sets[1] = append(sets[1], mk(i))
+			id := restic.ID{i}
+			ids1 = append(ids1, id[:]...)
+		}
+	}
+	changed := !(len(sets[1]) == 1 && sets[1][0].ID().Equal(restic.ID{1}))
+	added := false
+	for _, sn := range sets[1] {
+		if !sn.ID().Equal(restic.ID{1}) {
+			added = true
+		}
 	}
 	// collision-freeness between the two listings' ID hashes only
-	id1, id2 := restic.ID{1}, restic.ID{2}
-	verifrt.Assume(sha256.Sum256(id1[:]) != sha256.Sum256(append(append([]byte(nil), id1[:]...), id2[:]...)))
+	if changed {
+		verifrt.Assume(sha256.Sum256(ids0) != sha256.Sum256(ids1))
+	}
+	if added && len(sets[1]) <= 1 {
+		verifrt.Reach("snapshot-replaced")
+	}
 
+	covered := map[restic.ID]bool{}
 	for round := 0; round < 2; round++ {
 		listing = round
 		repo.loadFails = verifrt.Bool("loadFails")
@@ -91,28 +111,37 @@ func VerifC14_MountUpdate() {
 		now = now.Add(2 * minSnapshotsReloadTime)
 		err := d.updateSnapshots(context.Background())
 		ev := events[before:]
-		// order within one update: list, then (if the set changed) loadindex, then expose
-		sawLoad := false
+		// order within one update: list, then loadindex, then expose. A snapshot may be exposed once a
+		// successful index load has followed a listing that contained it.
+		sawLoad, loadFailed := false, false
 		for i, e := range ev {
 			switch e {
 			case "list":
 				verifrt.Assert(i == 0, "snapshots were listed after the index was loaded")
 			case "loadindex":
 				sawLoad = true
+				for _, sn := range sets[round] {
+					covered[*sn.ID()] = true
+				}
+			case "loadindex-failed":
+				loadFailed = true
 			case "expose":
-				verifrt.Assert(sawLoad, "new snapshots were exposed without a successful index reload after listing them")
+				for _, sn := range exposed {
+					verifrt.Assert(covered[*sn.ID()], "new snapshots were exposed without a successful index reload after listing them")
+				}
 				verifrt.Assert(len(exposed) == len(sets[round]), "the exposed snapshots are not the ones just listed")
 			}
 		}
-		if repo.loadFails && len(ev) > 1 {
+		_ = sawLoad
+		if loadFailed {
 			verifrt.Assert(err != nil, "a failed index reload must be reported")
 			for _, e := range ev {
 				verifrt.Assert(e != "expose", "snapshots were exposed although the index reload failed")
 			}
 		}
 	}
-	if len(sets[1]) == 2 && !repo.loadFails {
-		verifrt.Assert(len(exposed) == 2, "a new snapshot was not exposed after a successful reload")
+	if added && !repo.loadFails {
+		verifrt.Assert(len(exposed) == len(sets[1]), "a new snapshot was not exposed after a successful reload")
 		verifrt.Reach("new-snapshot-exposed")
 	}
 	verifrt.Reach("mount-update-done")
